@@ -977,3 +977,106 @@ DEPTH_GENERATORS = {
     "open_braces": (d_open_braces, True, False),
     "open_brackets": (d_open_brackets, True, False),
 }
+
+
+# ------------------------------------------------------------------ systematic nesting families
+# Every recursive production of the grammar x every syntactic context it can appear in.
+_PRE = (b"union Result<T, E> {\n    Ok { value: T },\n    Error { error: E }\n}\n"
+        b"struct S { a: int }\nstruct R { r: R2 }\nstruct R2 { r: int }\n"
+        b"fn f(x: int) -> int { return x }\nshadow f { assert true }\n")
+
+TYPE_PRODUCTIONS = {
+    "array": lambda n: b"array<" * n + b"int" + b">" * n,
+    "fn_param": lambda n: b"fn(" * n + b"int" + b") -> int" * n,
+    "fn_return": lambda n: b"fn() -> " * n + b"int",
+    "fn_param_return": lambda n: b"fn(" * (n // 2) + b"fn() -> " * (n - n // 2) + b"int" + b") -> int" * (n // 2),
+    "fn_second_param": lambda n: b"fn(int, " * n + b"int" + b") -> int" * n,
+    "tuple_last": lambda n: b"(int, " * n + b"int" + b")" * n,
+    "tuple_first": lambda n: b"(" * n + b"int" + b", int)" * n,
+    "hashmap_value": lambda n: b"HashMap<string, " * n + b"int" + b">" * n,
+    "hashmap_key": lambda n: b"HashMap<" * n + b"string" + b", int>" * n,
+    "generic_arg": lambda n: b"Result<" * n + b"int" + b", string>" * n,
+    "generic_second_arg": lambda n: b"Result<int, " * n + b"string" + b">" * n,
+    "list_arg": lambda n: b"List<" * n + b"int" + b">" * n,
+    "mixed": lambda n: b"".join((b"array<", b"fn(", b"(int, ", b"fn() -> ")[i % 4] for i in range(n)) + b"int" +
+                        b"".join((b">", b") -> int", b")", b"")[i % 4] for i in reversed(range(n))),
+}
+
+TYPE_CONTEXTS = {
+    "let": lambda t: _PRE + b"fn main() -> int {\n    let v: " + t + b" = 0\n    return 0\n}\nshadow main { assert true }\n",
+    "param": lambda t: _PRE + b"fn g(v: " + t + b") -> int {\n    return 0\n}\nshadow g { assert true }\nfn main() -> int { return 0 }\nshadow main { assert true }\n",
+    "return": lambda t: _PRE + b"fn g() -> " + t + b" {\n    return 0\n}\nshadow g { assert true }\nfn main() -> int { return 0 }\nshadow main { assert true }\n",
+    "struct_field": lambda t: _PRE + b"struct Big {\n    v: " + t + b"\n}\nfn main() -> int { return 0 }\nshadow main { assert true }\n",
+    "union_field": lambda t: _PRE + b"union U {\n    A { v: " + t + b" },\n    B { }\n}\nfn main() -> int { return 0 }\nshadow main { assert true }\n",
+    "extern_param": lambda t: _PRE + b"extern fn ext(v: " + t + b") -> int\nfn main() -> int { return 0 }\nshadow main { assert true }\n",
+    "generic_argument": lambda t: _PRE + b"fn main() -> int {\n    let v: Result<" + t + b", string> = 0\n    return 0\n}\nshadow main { assert true }\n",
+}
+
+EXPR_PRODUCTIONS = {
+    "prefix_parens": lambda n: b"(+ 1 " * n + b"1" + b")" * n,
+    "group_parens": lambda n: b"(" * n + b"1" + b")" * n,
+    "calls": lambda n: b"(f " * n + b"1" + b")" * n,
+    "unary_minus": lambda n: b"-" * n + b"k",
+    "unary_not_int": lambda n: b"not " * n + b"k",
+    "infix_chain": lambda n: b"1" + b" + 1" * n,
+    "infix_parens": lambda n: b"(1 + " * n + b"1" + b")" * n,
+    "field_chain": lambda n: b"s" + b".a" * n,
+    "tuple_index_chain": lambda n: b"tp" + b".0" * n,
+    "array_literal": lambda n: b"[" * n + b"1" + b"]" * n,
+    "tuple_literal": lambda n: b"(" * n + b"1" + b", 2)" * n,
+    "struct_literal": lambda n: b"S { a: " * n + b"1" + b" }" * n,
+    "cond_nest": lambda n: b"(cond ((== 1 2) 0) (else " * n + b"1" + b"))" * n,
+    "if_expr": lambda n: b"if true { " * n + b"1" + b" } else { 0 }" * n,
+    "union_construct": lambda n: b"Result.Ok { value: " * n + b"1" + b" }" * n,
+    "call_then_field": lambda n: b"(f " * n + b"s" + b".a" * n + b")" * n,
+}
+
+_EXPR_VARS = b"    let k: int = 1\n    let s: S = S { a: 1 }\n    let tp: (int, int) = (1, 2)\n"
+EXPR_CONTEXTS = {
+    "let_init": lambda e: _PRE + b"fn main() -> int {\n" + _EXPR_VARS + b"    let v: int = " + e + b"\n    return 0\n}\nshadow main { assert true }\n",
+    "call_argument": lambda e: _PRE + b"fn main() -> int {\n" + _EXPR_VARS + b"    (println " + e + b")\n    return 0\n}\nshadow main { assert true }\n",
+    "shadow_assert": lambda e: _PRE + b"fn main() -> int { return 0 }\nshadow main {\n" + _EXPR_VARS + b"    assert (== " + e + b" 1)\n}\n",
+    "ensures": lambda e: _PRE + b"fn g(k: int, s: S, tp: (int, int)) -> int\n    ensures (== result " + e + b")\n{\n    return 1\n}\nshadow g { assert true }\nfn main() -> int { return 0 }\nshadow main { assert true }\n",
+    "while_condition": lambda e: _PRE + b"fn main() -> int {\n" + _EXPR_VARS + b"    while (== " + e + b" 0) {\n        return 1\n    }\n    return 0\n}\nshadow main { assert true }\n",
+}
+
+# statement-level productions in a second context (a shadow block instead of a function body)
+STMT_PRODUCTIONS = {
+    "while_blocks": lambda n: b"while false {\n" * n + b"(println 1)\n" + b"}\n" * n,
+    "if_nest": lambda n: b"if (== 1 0) {\n" * n + b"(println 1)\n" + b"} else { (println 2) }\n" * n,
+    "elif_chain": lambda n: b"if (== 1 2) { (println 1) }\n" + b"else if (== 1 3) { (println 1) }\n" * n + b"else { (println 0) }\n",
+    "unsafe_nest": lambda n: b"unsafe {\n" * n + b"(println 1)\n" + b"}\n" * n,
+    "for_nest": lambda n: b"for i in (range 0 1) {\n" * n + b"(println 1)\n" + b"}\n" * n,
+    "match_nest": lambda n: b"match (Result.Ok { value: 1 }) { Ok(v) => {\n" * n + b"(println 1)\n" + b"} Error(e) => { (println 2) } }\n" * n,
+}
+STMT_CONTEXTS = {
+    "shadow_body": lambda b_: _PRE + b"fn main() -> int { return 0 }\nshadow main {\n" + b_ + b"    assert true\n}\n",
+    "nested_fn_body": lambda b_: _PRE + b"fn main() -> int {\n    fn inner() -> int {\n" + b_ + b"        return 1\n    }\n    return 0\n}\nshadow main { assert true }\n",
+}
+
+# productions without syntactic nesting (flat chains): only "must not crash"
+_FLAT = {"infix_chain", "field_chain", "tuple_index_chain", "elif_chain"}
+
+
+def _mk(prod, ctx):
+    return lambda n: ctx(prod(n))
+
+
+for _pn, _pf in sorted(TYPE_PRODUCTIONS.items()):
+    for _cn, _cf in sorted(TYPE_CONTEXTS.items()):
+        DEPTH_GENERATORS["type:%s@%s" % (_pn, _cn)] = (_mk(_pf, _cf), True, False)
+for _pn, _pf in sorted(EXPR_PRODUCTIONS.items()):
+    for _cn, _cf in sorted(EXPR_CONTEXTS.items()):
+        DEPTH_GENERATORS["expr:%s@%s" % (_pn, _cn)] = (_mk(_pf, _cf), _pn not in _FLAT, False)
+for _pn, _pf in sorted(STMT_PRODUCTIONS.items()):
+    for _cn, _cf in sorted(STMT_CONTEXTS.items()):
+        DEPTH_GENERATORS["stmt:%s@%s" % (_pn, _cn)] = (_mk(_pf, _cf), _pn not in _FLAT, False)
+
+
+def import_chain(n):
+    """i.nano -> m1.nano -> ... -> mn.nano (each module imports the next one)"""
+    files = {"i.nano": b'import "m1.nano"\nfn main() -> int { return 0 }\nshadow main { assert true }\n'}
+    for k in range(1, n + 1):
+        nxt = (b'import "m%d.nano"\n' % (k + 1)) if k < n else b""
+        files["m%d.nano" % k] = nxt + b"fn f%d() -> int { return %d }\nshadow f%d { assert true }\n" % (k, k, k)
+    return files
